@@ -125,7 +125,7 @@ def body(C):
     jobs = [(c10.run_target, 'mxc_uri'), (c10.run_target, 'key_id_any'),
             (c11.run_nopanic, ('MatrixId::parse_with_sigil', 'c11:parse_sigil')), (c11.run_nopanic, ('MatrixId::parse_with_type', 'c11:parse_type')),
             (c11.run_nopanic, ('MatrixToUri::parse', 'c11:parse_matrixto')),
-            (run_content_disposition, 7 if quick else 9),
+            (run_content_disposition, 4 if quick else 6),
             (run_word_utf8, (5, 2) if quick else (6, 3))]
     parts = os.environ.get('VERIF_PARTS')
     if parts:
